@@ -58,7 +58,7 @@ def run_shard(spec, rec):
             x = runs_sample(rng, cfg)
             st = "runs"
         else:
-            st, x = nn.gen_sample(rng, cfg, n_max=40)
+            st, x = nn.gen_sample(rng, cfg, n_max=40, nondyadic=0.25)
         if not nn.in_domain(cfg, x):
             continue
         run_case({"cfg": cfg, "x": x, "stratum": st}, rec)
